@@ -46,8 +46,9 @@ where
     let resolved_addr = resolved_addr.as_pathname().map(|a| a.to_owned());
     let listener_addr = resolved_addr.clone();
     let (stop_channel, stop_callback) = oneshot::channel::<()>();
+    let stop_signal = stop_callback.shared();
     let task_handle = async_rt::task::spawn(async move {
-        let mut stop_callback = stop_callback.fuse();
+        let mut stop_callback = stop_signal.clone().fuse();
         loop {
             select! {
                 incoming = listener.accept().fuse() => {
@@ -55,7 +56,7 @@ where
                         let peer_addr = peer_addr.as_pathname().map(|a| a.to_owned());
                         (make_framed(raw_socket), Endpoint::Ipc(peer_addr))
                     }).map_err(|err| err.into());
-                    async_rt::task::spawn(cback(maybe_accepted));
+                    super::spawn_until_stopped(cback(maybe_accepted), stop_signal.clone());
                 },
                 _ = stop_callback => {
                     log::debug!("Accept task received stop signal. {:?}", listener_addr);
